@@ -127,8 +127,20 @@ func init() {
 					if err != nil {
 						return "err"
 					}
-					for _, r := range rowsOf(sm) {
-						seen[itoa(rowIdx[r.Name])] = true
+					// every single run must return `par` pairwise distinct rows of the input (name and residues)
+					got := rowsOf(sm)
+					dup := map[int]bool{}
+					if len(got) != atoi(par) {
+						seen["foreign"] = true
+					}
+					for _, r := range got {
+						x, ok := rowIdx[r.Name]
+						if !ok || in[x].Seq != r.Seq || dup[x] {
+							seen["foreign"] = true
+							continue
+						}
+						dup[x] = true
+						seen[itoa(x)] = true
 					}
 				case "window", "columns":
 					sm, err := al.RandSubAlign(atoi(par), what == "window")
